@@ -90,6 +90,9 @@ class MulticomponentThermodynamics (GeneralThermodynamics):
     def clearCache(self):
         super().clearCache()
         self._compset_cache_curvature = {}
+        #Previous curvature terms (these do not exist yet when this is called from the base class constructor)
+        if hasattr(self, '_curvature_outputs'):
+            self._curvature_outputs = {p: CurvatureOutput() for p in self._curvature_outputs}
 
     def getInterfacialComposition(self, x, T, gExtra = 0, precPhase = None):
         '''
@@ -448,5 +451,8 @@ class MulticomponentThermodynamics (GeneralThermodynamics):
         precPhase = _getPrecipitatePhase(self.phases, precPhase)
         curv_results = self.curvatureFactor(x, T, precPhase, removeCache, searchDir)
         if curv_results is None:
+            #The previous value is only a valid fall back when previous results are meant to be kept
+            if removeCache:
+                return None
             return self._curvature_outputs[precPhase].beta
         return curv_results.beta
